@@ -66,7 +66,7 @@ ENGINES["client"] = {
 
 ENGINES["ctl"] = {
     "pkg": "./harness/ctl",
-    "instr": ["chord:1:node_state.go=2", "kv/memory:1", "util/promise:1", "util/atomic:1", "tun/server:1", "spec/transport:1"],
+    "instr": ["chord:1:node_state.go=2", "kv/memory:1", "util/promise:1", "util/atomic:1", "tun/server:1", "spec/transport:1", "acme:1"],
     "inject": {"chord/zz_verif_export.go": "inject/chord/zz_verif_export.go", "tun/server/zz_verif_export.go": "inject/tunserver/zz_verif_export.go"},
     "real": ["tun/server.Server with its real RPC wiring (attachRPC: twirp servers + verifyClientIdentity hook + chi + rate limiter + http.Server), spec/transport.StreamRouter, rpc.DynamicTunnelClient (net/http client)",
              "spec/pki certificate generation and identity extraction", "route cache (theine) and its loader", "the KV of a real 1-3 node chord ring (chord.LocalNode + kv/memory over simnet)"],
@@ -128,6 +128,11 @@ PROPS.update({
     "C26": {"engine": "ctl", "level": "exploration", "quick": 160, "thorough": 6000},
     "C28": {"engine": "ctl", "level": "fault_enumeration", "quick": 48, "thorough": 1000},
     "C51": {"engine": "ctl", "level": "exploration", "quick": 96, "thorough": 3000},
+    "C27": {"engine": "ctl", "level": "exploration", "quick": 96, "thorough": 3000},
+    "C29": {"engine": "ctl", "level": "exploration", "quick": 64, "thorough": 2000},
+    "C42": {"engine": "ctl", "level": "exploration", "quick": 800, "thorough": 40000},
+    "C48": {"engine": "ctl", "level": "exploration", "quick": 160, "thorough": 6000},
+    "C49": {"engine": "ctl", "level": "exploration", "quick": 160, "thorough": 6000},
 })
 
 RULES = {
